@@ -268,6 +268,13 @@ def run_shard(i, n, tier, seed, m):
         nontrivial = len(case["terms"]) >= 2 or bool(case["group"])
         m.case({**case, "text": text}, canon=[text, case["frame"]["seed"]], nontrivial=nontrivial)
         judge(case, m)
+    cross(i, n, tier, seed, m)
+
+
+def cross(i, n, tier, seed, m):
+    """The same monitors watching other properties' workloads (see core.cross_workloads)."""
+    CTX["hostile"] = True  # foreign drivers use hostile level names freely: label uniqueness is not judged there
+    core.cross_workloads(m, DECIDING, ['C05', 'C10', 'C15', 'C16', 'C09'], tier, seed, i, n, 600 if tier == "quick" else 6000)
 
 
 def replay(rec, m):
